@@ -13,6 +13,7 @@ import (
 	"sync"
 	"sync/atomic"
 	"testing"
+	"time"
 
 	"pgregory.net/rapid"
 
@@ -912,6 +913,169 @@ func drawHot(rt *rapid.T, kind string, ver int, procs int, itersScale int) HotCa
 	return c
 }
 
+// ---- (k) stack positions ----------------------------------------------------------------------
+
+// StackCase: each exported function is called at the bottom of a recursion of every depth 0..Depths-1, each
+// time on a fresh goroutine (whose stack starts small), and must return what it returns at depth 0. At some
+// depths the goroutine's stack has to grow INSIDE the call; code that keeps the address of one of its own
+// stack variables as an integer writes to the old stack from then on.
+type StackCase struct {
+	Ver    int      `json:"ver"`
+	Vec    gen.BStr `json:"vector"`
+	Depths int      `json:"depths"`
+}
+
+//go:noinline
+func recurse(d int, f func()) {
+	var pad [40]byte
+	if d == 0 {
+		f()
+	} else {
+		recurse(d-1, f)
+	}
+	runtime.KeepAlive(&pad)
+}
+
+func checkStack(c StackCase) error {
+	if c.Ver < 0 || c.Ver > 3 || c.Depths < 1 || c.Depths > 20000 {
+		return nil
+	}
+	p := adapt.Pkgs[c.Ver]
+	vec := string(c.Vec)
+	o, err := p.Parse(vec)
+	if err != nil || o == nil {
+		return nil
+	}
+	abv := p.V.Metrics[len(p.V.Metrics)-1].Abv
+	cur, _ := o.Get(abv)
+	fns := []struct {
+		name string
+		f    func() string
+	}{
+		{"Vector()", func() string { return o.Vector() }},
+		{"ParseVector", func() string {
+			q, err := p.Parse(vec)
+			if q == nil {
+				return "nil," + errText(err)
+			}
+			return q.State() + "," + errText(err)
+		}},
+		{"the scoring methods", func() string { return fbits(o.Scores()) + fbits(o.SubScores()) }},
+		{"Get", func() string { g, err := o.Get(abv); return g + "," + errText(err) }},
+		{"Set", func() string { q := o.Clone(); err := q.Set(abv, cur); return q.State() + "," + errText(err) }},
+		{"Nomenclature", func() string { return o.Nomenclature() }},
+	}
+	for _, fn := range fns {
+		want := fn.f()
+		for d := 0; d < c.Depths; d++ {
+			var got string
+			done := make(chan struct{})
+			go func() {
+				defer close(done)
+				defer func() {
+					if r := recover(); r != nil {
+						got = fmt.Sprintf("panic: %v", r)
+					}
+				}()
+				recurse(d, func() { got = fn.f() })
+			}()
+			<-done
+			if got != want {
+				return fmt.Errorf("v%s %s on %q returns %q when called %d frames deep on a fresh goroutine, and %q otherwise", p.V.Name, fn.name, vec, got, d, want)
+			}
+		}
+	}
+	return nil
+}
+
+// ---- (j) idle periods ---------------------------------------------------------------------------
+
+// IdleCase: a set of calls is made, the process then makes NO call into the library for Pause, and the
+// same calls are made again: the results must be identical (the first call after a pause is the one a
+// time-stamped cache, a timer that drops idle state or a rate limiter treats differently). Error values
+// and Vector() strings obtained before the pause are kept across it and across a burst of further
+// failing calls, and must still read the same.
+type IdleCase struct {
+	PauseMs int   `json:"pause_ms"`
+	Ops     []WOp `json:"calls"`
+}
+
+func checkIdle(c IdleCase) error {
+	if c.PauseMs < 0 || c.PauseMs > 600000 {
+		return nil
+	}
+	shared := sharedObjects()
+	run := func() []string {
+		a := newActor(shared)
+		out := make([]string, len(c.Ops))
+		for i, op := range c.Ops {
+			out[i] = a.exec(op)
+		}
+		return out
+	}
+	type heldErr struct {
+		err  error
+		text string
+		what string
+	}
+	var held []heldErr
+	var heldStr, heldCopy []string
+	for vi, p := range adapt.Pkgs {
+		o := p.Zero()
+		for k := 0; k < 6; k++ {
+			abv := fmt.Sprintf("Q%d%d", vi, k)
+			_, e1 := o.Get(abv)
+			e2 := o.Set(abv, "N")
+			_, e3 := p.Parse(p.V.Header + abv + ":N")
+			for _, e := range []error{e1, e2, e3} {
+				if e != nil {
+					held = append(held, heldErr{e, e.Error(), fmt.Sprintf("v%s, unknown abbreviation %q", p.V.Name, abv)})
+				}
+			}
+		}
+		s := o.Vector()
+		heldStr, heldCopy = append(heldStr, s), append(heldCopy, string(append([]byte{}, s...)))
+	}
+	before := run()
+	time.Sleep(time.Duration(c.PauseMs) * time.Millisecond)
+	after := run()
+	for i := range before {
+		if before[i] != after[i] {
+			op := c.Ops[i]
+			return fmt.Errorf("%s (v%s, call %d of the set) gives %q, and %q when it is made again after %d ms without any call into the library", op.Kind, spec.Versions[op.Ver%4].Name, i, before[i], after[i], c.PauseMs)
+		}
+	}
+	// a burst of further failing calls, then the kept values are read again
+	for vi, p := range adapt.Pkgs {
+		o := p.Zero()
+		for k := 0; k < 40; k++ {
+			abv := fmt.Sprintf("R%d%d", vi, k)
+			o.Get(abv)
+			o.Set(abv, "N")
+			p.Parse(p.V.Header + abv + ":N")
+			o.Vector()
+		}
+	}
+	for _, hd := range held {
+		if got := hd.err.Error(); got != hd.text {
+			return fmt.Errorf("an error obtained before a pause of %d ms (%s) read %q then and reads %q after the pause and 40 further failing calls", c.PauseMs, hd.what, hd.text, got)
+		}
+	}
+	for i := range heldStr {
+		if heldStr[i] != heldCopy[i] {
+			return fmt.Errorf("a string returned by Vector() before a pause of %d ms changed: was %q, now %q", c.PauseMs, heldCopy[i], heldStr[i])
+		}
+	}
+	third := run()
+	for i := range before {
+		if before[i] != third[i] {
+			op := c.Ops[i]
+			return fmt.Errorf("%s (v%s, call %d of the set) gives %q before a pause of %d ms and %q on the second round after it", op.Kind, spec.Versions[op.Ver%4].Name, i, before[i], c.PauseMs, third[i])
+		}
+	}
+	return nil
+}
+
 // ---- (i) retention: results kept for a long time while the package keeps working -------------
 
 // Retention: G goroutines (1 = sequential) each make N calls of one kind on a stream of different
@@ -1045,6 +1209,9 @@ func drawRetention(rt *rapid.T, kind string, ver int, g int) Retention {
 	if env.Phase == "plain" {
 		c.N *= 4 // calls are several times cheaper without the race detector
 	}
+	if env.Phase == "g126" {
+		c.N /= 2
+	}
 	return c
 }
 
@@ -1054,7 +1221,7 @@ func TestC14(t *testing.T) {
 	// plain: the second process of this check, built without the race detector (under which sync.Pool
 	// drops a quarter of its entries at random, so pooled state never grows old): it runs the
 	// sequential families and the retention runs, not the interleaving families
-	plain := env.Phase == "plain"
+	plain := env.Phase == "plain" || env.Phase == "g126"
 	n := env.Scale(6000, 20000)
 	if env.Shards > 1 {
 		n = env.Scale(6000, 40000)
@@ -1162,6 +1329,7 @@ func TestC14(t *testing.T) {
 		ec := exactCountCases()
 		if !doReplay(h, "exact-count", checkExactCount) {
 			for _, c := range ec {
+				h.R.Pending("exact-count", c)
 				if err := safely(checkExactCount, c); err != nil {
 					h.fail("exact-count", c, err)
 				}
@@ -1296,18 +1464,101 @@ func TestC14(t *testing.T) {
 			}
 		}
 	}
+	// (k) stack positions: every version, a base-only and a long vector
+	if plain || h.replaying() {
+		// (sequential: run by the side processes built without the race detector)
+		var sc []StackCase
+		reps := gen.Representatives()
+		for i, r := range reps {
+			if i == 0 || i == len(reps)-1 || reps[i-1].Ver != r.Ver || reps[i+1].Ver != r.Ver { // first and last of each version
+				sc = append(sc, StackCase{Ver: r.Ver, Vec: gen.BStr(r.S), Depths: env.Scale(3000, 6000) * 4 / 4})
+			}
+		}
+		if !doReplay(h, "stack", checkStack) {
+			for _, c := range sc {
+				h.R.Pending("stack", c)
+				if err := safely(checkStack, c); err != nil {
+					h.fail("stack", c, err)
+				}
+			}
+			h.R.AddExact(int64(len(sc)), int64(len(sc)))
+			h.R.Count("stack-position cases (6 functions x every recursion depth, each on a fresh goroutine)", int64(len(sc)))
+			h.R.Count("calls made at the bottom of a recursion on a fresh goroutine", int64(len(sc)*6*sc[0].Depths))
+		}
+	}
+	// (j) idle periods: in the plain side process only - it is done long before the race-instrumented main
+	// process, so the pauses cost no wall-clock time
+	if env.Phase == "plain" || h.replaying() {
+		pauses := []int{1100, 3300, 5300, 10500}
+		if env.Tier == "thorough" {
+			pauses = append(pauses, 21000, 31000, 61000, 125000, 305000)
+		}
+		if h.replaying() {
+			pauses = pauses[:1]
+		}
+		for _, ms := range pauses {
+			ms := ms
+			Rapid(h, "idle", 1, func(rt *rapid.T) IdleCase {
+				c := IdleCase{PauseMs: ms}
+				// fixed mid-severity vectors first (the first case rapid draws is its minimal one: all-first values)
+				for ver, vec := range []string{
+					"AV:N/AC:L/Au:N/C:P/I:P/A:C/E:U/RL:OF/RC:C/CDP:MH/TD:H/CR:M/IR:M/AR:M",
+					"CVSS:3.0/AV:N/AC:H/PR:L/UI:N/S:C/C:H/I:L/A:L/E:F/RL:O/RC:C/CR:H/IR:L/AR:M/MAV:A/MC:H",
+					"CVSS:3.1/AV:L/AC:L/PR:H/UI:R/S:U/C:L/I:H/A:N/E:P/RL:W/RC:R/CR:L/MS:C/MI:L",
+					"CVSS:4.0/AV:N/AC:L/AT:P/PR:L/UI:P/VC:H/VI:L/VA:N/SC:L/SI:H/SA:N/E:P/CR:M/IR:L/MAV:A/MSI:S/S:P/U:Amber",
+				} {
+					c.Ops = append(c.Ops, WOp{Kind: "parse", Ver: ver, S: gen.BStr(vec)}, WOp{Kind: "scores", Ver: ver}, WOp{Kind: "vector", Ver: ver}, WOp{Kind: "nomen", Ver: ver})
+				}
+				for _, r := range gen.Representatives() {
+					c.Ops = append(c.Ops, WOp{Kind: "parse", Ver: r.Ver, S: gen.BStr(r.S)}, WOp{Kind: "scores", Ver: r.Ver}, WOp{Kind: "vector", Ver: r.Ver})
+				}
+				// every (function, version) pair several times, on different vectors
+				for rep := 0; rep < 3; rep++ {
+					for ver := 0; ver < 4; ver++ {
+						c.Ops = append(c.Ops, WOp{Kind: "parse", Ver: ver, S: gen.BStr(gen.ValidVector(rt, ver).S)})
+						for _, k := range []string{"scores", "vector", "get", "set", "nomen", "rating"} {
+							c.Ops = append(c.Ops, drawOpFocus(rt, false, k, ver))
+						}
+						s, _ := gen.Mutate(rt, gen.ValidVector(rt, ver))
+						c.Ops = append(c.Ops, WOp{Kind: "parse", Ver: ver, S: gen.BStr(s)})
+					}
+				}
+				h.R.Case(fmt.Sprintf("idle period of %d ms between two rounds of the same calls", ms), fmt.Sprintf("IDLE%d%v", ms, c.Ops))
+				h.R.Count("calls repeated after an idle period", int64(len(c.Ops)))
+				if h.R.WantSample("idle") {
+					h.R.Sample("idle", map[string]any{"pause_ms": ms, "calls": len(c.Ops), "first_calls": c.Ops[:4]})
+				}
+				return c
+			}, checkIdle)
+		}
+	}
 	// (f) cold starts: every (function, version) combination gets its own fresh processes
 	type combo struct {
 		kind string
 		ver  int
+		ver2 int // >= 0: every second goroutine works with this version instead (two packages meet in a fresh process)
 	}
 	var combos []combo
 	for _, k := range []string{"parse", "vector", "scores", "get", "set"} {
 		for v := 0; v < 4; v++ {
-			combos = append(combos, combo{k, v})
+			combos = append(combos, combo{k, v, -1})
 		}
 	}
-	combos = append(combos, combo{"rating", 1}, combo{"rating", 2}, combo{"rating", 3}, combo{"nomen", 3})
+	combos = append(combos, combo{"rating", 1, -1}, combo{"rating", 2, -1}, combo{"rating", 3, -1}, combo{"nomen", 3, -1})
+	// two version packages used for the first time at the same moment (state shared through an internal
+	// package, initialised by whichever comes first): 3.0 with 3.1 always, one more pair rotating with the seed
+	other := [][2]int{{0, 1}, {0, 2}, {0, 3}, {1, 3}, {2, 3}}[int(env.Seed%5+5)%5]
+	for _, k := range []string{"scores", "parse", "vector"} {
+		combos = append(combos, combo{k, 1, 2}, combo{k, 2, 1})
+	}
+	combos = append(combos, combo{"scores", other[0], other[1]}, combo{"parse", other[0], other[1]})
+	if env.Tier == "thorough" {
+		for _, pr := range [][2]int{{0, 1}, {0, 2}, {0, 3}, {1, 3}, {2, 3}} {
+			for _, k := range []string{"scores", "parse", "vector"} {
+				combos = append(combos, combo{k, pr[0], pr[1]}, combo{k, pr[1], pr[0]})
+			}
+		}
+	}
 	nc := env.Scale(1, 6)
 	if env.Shards > 1 {
 		nc = env.Scale(1, 2)
@@ -1322,17 +1573,25 @@ func TestC14(t *testing.T) {
 			ng := rapid.IntRange(16, 48).Draw(rt, "goroutines")
 			for g := 0; g < ng; g++ {
 				var ops []WOp
+				ver := cb.ver
+				if cb.ver2 >= 0 && g%2 == 1 {
+					ver = cb.ver2
+				}
 				// the first calls of every goroutine reach the focused function; a few follow-ups
 				if cb.kind == "scores" || cb.kind == "vector" || cb.kind == "nomen" || cb.kind == "get" {
-					ops = append(ops, WOp{Kind: "parse", Ver: cb.ver, S: gen.BStr(gen.ValidVector(rt, cb.ver).S)})
+					ops = append(ops, WOp{Kind: "parse", Ver: ver, S: gen.BStr(gen.ValidVector(rt, ver).S)})
 				}
-				ops = append(ops, drawOpFocus(rt, false, cb.kind, cb.ver))
+				ops = append(ops, drawOpFocus(rt, false, cb.kind, ver))
 				for i, k := 0, rapid.IntRange(0, 2).Draw(rt, "more"); i < k; i++ {
-					ops = append(ops, drawOpFocus(rt, false, "", cb.ver))
+					ops = append(ops, drawOpFocus(rt, false, "", ver))
 				}
 				w.G = append(w.G, ops)
 			}
-			h.R.Case(fmt.Sprintf("cold start focus=%s v%s", cb.kind, spec.Versions[cb.ver].Name), fmt.Sprintf("COLD%v", w))
+			label := fmt.Sprintf("cold start focus=%s v%s", cb.kind, spec.Versions[cb.ver].Name)
+			if cb.ver2 >= 0 {
+				label += " together with v" + spec.Versions[cb.ver2].Name
+			}
+			h.R.Case(label, fmt.Sprintf("COLD%v", w))
 			h.R.Count("fresh child processes started", int64(w.Rounds))
 			if h.R.WantSample("cold-start") {
 				small := w
